@@ -152,10 +152,24 @@ class EncoderModel:
                 return True
         return False
 
+    def opener_paths(self):
+        """[(path of the opener, pushes a frame on it)]"""
+        if getattr(self, "_opener_paths", None) is None:
+            out = []
+            for p in paths.enumerate_paths(self.opener):
+                if p.end != "exit":
+                    continue
+                pushes = any(x.get("k") == "call" and (x.get("callee") or {}).get("nm") in ("push_back", "emplace_back") and
+                             strip_all_casts(x.get("obj", {})).get("field") == self.frames for _, x in p.elems())
+                out.append((p, pushes))
+            self._opener_paths = out
+        return self._opener_paths
+
     def must_open(self, fn):
-        """True when every path of fn calls a must-open function."""
+        """True when every path of fn calls a must-open function (the opener itself: when every path of it pushes a frame — an opener
+        that declines under some condition, e.g. while the current frame is still empty, only *may* open)."""
         if fn is self.opener:
-            return True
+            return all(pushes for _, pushes in self.opener_paths())
         ps = paths.enumerate_paths(fn)
         for p in ps:
             if not any((self.fb.resolve_call(c) is not None and self.fb.resolve_call(c).rec == ENC and
@@ -612,7 +626,7 @@ def rule_type_change_opens_frame(res, rid, m):
                 changed, opened_after = True, False
             elif x.get("k") == "call":
                 g = m.fb.resolve_call(x)
-                if g is not None and g.rec == ENC and (g is m.opener or m.must_open(g)) and changed:
+                if g is not None and g.rec == ENC and m.must_open(g) and changed:
                     opened_after = True
                 elif g is m.header_writer and changed and not opened_after and bad is None:
                     bad = x
@@ -1135,18 +1149,25 @@ def rule_frames_zeroed_trimmed(res, rid, m):
     direct = {c["id"] for ff, c, kind in rs if ff is f and kind == "frame"}
     trims = [x for x in f.calls() if x["id"] in direct or (m.fb.resolve_call(x) is not None and m.fb.resolve_call(x).rec == ENC and
                                                           m.fb.resolve_call(x) is not f and trims_frame(m, m.fb.resolve_call(x)))]
-    mf = MustFacts(f)
+    # per path of the opener: a push is preceded by a trim of the previous frame, unless the path has established that there is none
+    # (the frame list — not some other container — is empty)
+    trim_ids = {t["id"] for t in trims}
+    fr = "this->" + m.short(m.frames)
     for pb in pushes:
-        ok = False
-        for t in trims:
-            bt, bp = cfg.block_for(t), cfg.block_for(pb)
-            before = (bt == bp and cfg.pos_of[t["id"]] < cfg.pos_of[pb["id"]]) or (bt != bp and not cfg.dominates(bp, bt))
-            guard = [a for a in mf.at(t) if a[0] == "truth" and "empty" in a[1]]
-            skip_only_if_empty = cfg.dominates(bt, bp) or (guard and guard[0][2] is False)
-            if before and skip_only_if_empty:
-                ok = True
-        res.check(ok, rid, "opener:trim-before-push", pb.get("loc"), "previous frame is trimmed before a new one is pushed (skipped only when there is none)",
-                  "a new frame is pushed without trimming the previous one")
+        bad = None
+        for q, _ in m.opener_paths():
+            ids = [x.get("id") for _, x in q.elems()]
+            if pb["id"] not in ids:
+                continue
+            before = ids[:ids.index(pb["id"])]
+            trimmed = any(i in trim_ids for i in before)
+            none_yet = any(a[0] == "truth" and a[2] is True and fr in a[1] and "empty" in a[1] for a in q.atoms) or \
+                any(a[0] == "cmp" and fr in (a[1] + a[3]) and "size" in (a[1] + a[3]) and a[2] == "==" and 0 in (const_value(a[4]), const_value(a[5])) for a in q.atoms)
+            if not trimmed and not none_yet:
+                bad = bad or q
+        res.check(bad is None, rid, "opener:trim-before-push", pb.get("loc"), "previous frame is trimmed before a new one is pushed (skipped only when there is none)",
+                  "a new frame is pushed without trimming the previous one on the path with %s: that frame stays at the maximum size, padded beyond the "
+                  "minimum" % (", ".join("%s%s" % ("" if a[2] is True else "!", a[1].split("->")[-1][:40]) for a in (bad.atoms if bad else []) if a[0] == "truth")[:160]))
     fin = m.finisher
     okfin = False
     for p in paths.enumerate_paths(fin):
@@ -1201,8 +1222,20 @@ def fresh_guarded(m, call, fn, p):
                     return True
         return False
     g = m.fb.resolve_call(call)
+
+    def opener_declines_when_fresh():
+        # the opener itself declines in the fresh state: each of its pushing paths is taken only with `bytesLeft != fresh` (or with no
+        # frame at all, which is not the state in question)
+        if m.must_open(m.opener):
+            return False
+        fr = "this->" + m.short(m.frames)
+        return all((not pushes) or guarded_in(m.opener, q, None) or
+                   any(a[0] == "truth" and a[2] is True and a[1].replace("(", "").replace(")", "").endswith("empty") and fr in a[1] for a in q.atoms)
+                   for q, pushes in m.opener_paths())
     if g is m.opener:
-        return guarded_in(fn, p, call["id"])
+        return guarded_in(fn, p, call["id"]) or opener_declines_when_fresh()
+    if opener_declines_when_fresh():
+        return True
     # may-open callee: every path of the callee that opens is guarded inside the callee
     for q in paths.enumerate_paths(g):
         opens = [x for _, x in q.elems() if x.get("k") == "call" and m.fb.resolve_call(x) is not None and m.may_open(m.fb.resolve_call(x))]
